@@ -11,7 +11,7 @@ package wire
 
 //@ func NewAddress
 //@   trusted
-//@   ensures result != nil
+//@   ensures result != nil && fresh(payload(result))
 
 //@ func (*AddressDecMap).Decode
 //@   requires r != nil
@@ -123,3 +123,77 @@ package wire
 //@   ensures result != nil ==> len(p.consumers) == old(len(p.consumers))
 //@   loop 1
 //@     invariant forall k int :: 0 <= k && k < $i ==> p.consumers[k].consumer != c
+
+// ---------------------------------------------------------------------------
+// Round trip and stability of wire address maps (C14), token level; same shape as wallet.AddressDecMap (see
+// wallet/zz_verif_contracts.go and channel/zz_verif_contracts.go for the vocabulary). The encoder writes the entry count and
+// then every key of the map exactly once, in strictly ascending order, with the marshalled address.
+// ---------------------------------------------------------------------------
+//@ ghost func wEntryPos(p int, k int) int
+//@ axiom forall p, k int :: { wEntryPos(p, k) } wEntryPos(p, k) == p + 1 + 2 * k
+//@ pred wAddrMapTokens(w io.Writer, p int, x AddressDecMap, ids []int, n int) = forall k int :: { wEntryPos(p, k) } 0 <= k && k < n ==>
+//@   wtokKind(w, wEntryPos(p, k)) == tokkind("int32") && wtokVal(w, wEntryPos(p, k)) == ids[k] && has(x, ids[k]) &&
+//@   wtokKind(w, wEntryPos(p, k) + 1) == tokkind("marshal") && wtokVal(w, wEntryPos(p, k) + 1) == marshalOf(x[ids[k]])
+//@ pred wAscending(ids []int, n int) = forall i, j int :: 0 <= i && i < j && j < n ==> ids[i] < ids[j]
+//@ pred wDistinctInts(ids []int, n int) = forall i, j int :: 0 <= i && i < j && j < n ==> ids[i] != ids[j]
+//@ pred wAddrMapCanon(w io.Writer, p int, x AddressDecMap) = wtokKind(w, p) == tokkind("int32") && wtokVal(w, p) == len(x) &&
+//@   (forall k int :: { wEntryPos(p, k) } 0 <= k && k < len(x) ==> wtokKind(w, wEntryPos(p, k)) == tokkind("int32") && has(x, wtokVal(w, wEntryPos(p, k))) &&
+//@     wtokKind(w, wEntryPos(p, k) + 1) == tokkind("marshal") && wtokVal(w, wEntryPos(p, k) + 1) == marshalOf(x[wtokVal(w, wEntryPos(p, k))])) &&
+//@   (forall k, j int :: { wEntryPos(p, k), wEntryPos(p, j) } 0 <= k && k < j && j < len(x) ==> wtokVal(w, wEntryPos(p, k)) < wtokVal(w, wEntryPos(p, j)))
+//@ pred wAddrMapWF(x AddressDecMap) = wireMapNonNil(x) && (forall b wallet.BackendID :: has(x, b) ==> marshalLen(x[b]) <= 65535)
+//@ pred wAddrMapEq(y AddressDecMap, x AddressDecMap) = y != nil && len(y) == len(x) &&
+//@   (forall b wallet.BackendID :: has(y, b) ==> has(x, b) && y[b] != nil && allocated(payload(y[b])) && unmarshalledFrom(y[b]) == marshalOf(x[b]))
+
+//@ func (AddressDecMap).Encode
+//@   tokenmodel
+//@   requires w != nil && wAddrMapWF(a)
+//@   modifies ghost("wcount"), ghost("tkind"), ghost("tlen"), ghost("tval")
+//@   ensures result == nil ==> wcount(w) == old(wcount(w)) + 1 + 2 * len(a) && wAddrMapCanon(w, old(wcount(w)), a)
+//@   loop 1
+//@     modifies fresh
+//@     invariant len(indexes) == $i && wDistinctInts(indexes, $i) && fresh(arr(indexes))
+//@     invariant forall k int :: 0 <= k && k < $i ==> has(a, indexes[k]) && visited(indexes[k])
+//@   loop 2
+//@     invariant wcount(w) == old(wcount(w)) + 1 + 2 * $i && len(indexes) == len(a) && wAscending(indexes, len(a))
+//@     invariant wtokKind(w, old(wcount(w))) == tokkind("int32") && wtokVal(w, old(wcount(w))) == len(a)
+//@     invariant (forall k int :: 0 <= k && k < len(a) ==> has(a, indexes[k])) && wAddrMapTokens(w, old(wcount(w)), a, indexes, $i)
+//@ codec AddressDecMap wf wAddrMapWF eq wAddrMapEq by verifRoundTripAddressDecMap
+//@ func verifRoundTripAddressDecMap
+//@   tokenmodel
+//@   requires w0 != nil && r0 != nil && wAddrMapWF(x)
+//@   modifies *
+//@   inlines (*AddressDecMap).Decode
+//@   ensures encErr == nil && !rfail(r0) && !rejected(r0) ==> decErr == nil
+//@   ensures encErr == nil && decErr == nil ==> !desync(r0) && rcount(r0) - old(rcount(r0)) == wcount(w0) - old(wcount(w0))
+//@   ensures encErr == nil && decErr == nil ==> wAddrMapEq(y, x)
+//@   ensures encErr == nil ==> wcount(w0) == old(wcount(w0)) + 1 + 2 * len(x) && wAddrMapCanon(w0, old(wcount(w0)), x)
+//@   loop (*AddressDecMap).Decode.1
+//@     modifies fresh, ghost("rcount"), ghost("desync"), ghost("rfail"), ghost("rejected"), ghost("unmarshalledFrom"), ghost("unmarshalled")
+//@     invariant wAddrMapCanon(w0, old(wcount(w0)), x)
+//@     invariant !desync(r) && rcount(r) == old(rcount(r0)) + 1 + 2 * $i && mapLen == len(x) && *a != nil && fresh(*a) && len(*a) == $i
+//@     invariant wEntryPos(old(wcount(w0)), $i) == old(wcount(w0)) + 1 + 2 * $i
+//@     invariant forall b wallet.BackendID :: has(*a, b) ==> has(x, b) && (*a)[b] != nil && allocated(payload((*a)[b])) && unmarshalledFrom((*a)[b]) == marshalOf(x[b])
+//@     invariant $i > 0 ==> forall b wallet.BackendID :: has(*a, b) ==> b <= wtokVal(w0, wEntryPos(old(wcount(w0)), $i - 1))
+//@     invariant $i == 0 ==> forall b wallet.BackendID :: !has(*a, b)
+//@     invariant $i > 0 && $i < len(x) ==> wtokVal(w0, wEntryPos(old(wcount(w0)), $i - 1)) < wtokVal(w0, wEntryPos(old(wcount(w0)), $i))
+
+//@ pred wAddrArrWF(x AddressMapArray) = forall i int :: 0 <= i && i < len(x) ==> wAddrMapWF(x[i])
+//@ pred wAddrArrEq(y AddressMapArray, x AddressMapArray) = len(y) == len(x) && forall i int :: 0 <= i && i < len(x) ==> y[i] != nil && wAddrMapEq(y[i], x[i])
+//@ pred wAddrArrTokens(w io.Writer, p int, x AddressMapArray, n int) = forall m int :: p + 1 <= m && m < p + 1 + n ==>
+//@   wtokKind(w, m) == tokkind("sum:wire.AddressDecMap") && wtokVal(w, m) == sumOf(AddressDecMap(x[m - (p + 1)]))
+//@ codec AddressMapArray wf wAddrArrWF eq wAddrArrEq by verifRoundTripAddressMapArray
+//@ func verifRoundTripAddressMapArray
+//@   tokenmodel
+//@   requires w0 != nil && r0 != nil && wAddrArrWF(x)
+//@   modifies *
+//@   inlines (AddressMapArray).Encode, (*AddressMapArray).Decode
+//@   ensures encErr == nil && !rfail(r0) && !rejected(r0) ==> decErr == nil
+//@   ensures encErr == nil && decErr == nil ==> !desync(r0) && rcount(r0) - old(rcount(r0)) == wcount(w0) - old(wcount(w0))
+//@   ensures encErr == nil && decErr == nil ==> wAddrArrEq(y, x)
+//@   loop (AddressMapArray).Encode.1
+//@     invariant wcount(w) == old(wcount(w)) + 1 + $i && wtokKind(w, old(wcount(w))) == tokkind("int32") && wtokVal(w, old(wcount(w))) == len(a)
+//@     invariant wAddrArrTokens(w, old(wcount(w)), a, $i)
+//@   loop (*AddressMapArray).Decode.1
+//@     modifies fresh, ghost("rcount"), ghost("desync"), ghost("rfail"), ghost("rejected"), ghost("unmarshalledFrom"), ghost("unmarshalled")
+//@     invariant !desync(r) && rcount(r) == old(rcount(r0)) + 1 + $i && mapLen == len(x) && len(*a) == len(x) && fresh(arr(*a))
+//@     invariant forall k int :: 0 <= k && k < $i ==> (*a)[k] != nil && wAddrMapEq((*a)[k], x[k])
